@@ -6,9 +6,9 @@
 (* arguments; `pre` = what was observable before the interrupted operation.*)
 EXTENDS CommitLogCrash, TLC, Json
 
-CONSTANTS MaxOps, MaxPost, MaxRecs, MaxBatch, MaxEpoch, MaxHit, CapSet, RetSet, CompactSet, Keys, Taints, GenMode
-VARIABLES phase, pre, last, nOps, nPost, nVal, hist, pts
-mcvars == <<vars, phase, pre, last, nOps, nPost, nVal, hist, pts>>
+CONSTANTS MaxOps, MaxPost, MaxRecs, MaxBatch, MaxEpoch, MaxHit, MaxRecCrash, CapSet, RetSet, CompactSet, Keys, Taints, GenMode
+VARIABLES phase, pre, last, nOps, nPost, nVal, hist, pts, nRec
+mcvars == <<vars, phase, pre, last, nOps, nPost, nVal, hist, pts, nRec>>
 
 NoPre == [sc |-> <<>>, nw |-> -1, lastBase |-> 0, hw |-> -1, op |-> [a |-> "none"], p |-> ""]
 
@@ -47,7 +47,7 @@ MCInit ==
   /\ LET R == RecoverFS([lf |-> <<>>, xf |-> <<>>, hwf |-> NoHW, epf |-> <<>>]) IN fs = R.fs /\ mem = R.mem
   /\ obs = [a |-> "Open", ret |-> <<>>, err |-> ""]
   /\ phase = "pre" /\ pre = NoPre /\ last = [a |-> "Open"]
-  /\ nOps = 0 /\ nPost = 0 /\ nVal = 0 /\ hist = <<>> /\ pts = {}
+  /\ nOps = 0 /\ nPost = 0 /\ nVal = 0 /\ hist = <<>> /\ pts = {} /\ nRec = 0
 
 Count(op) == IF op.a \in {"Append", "AppendSet"} THEN Len(op.recs) ELSE 0
 
@@ -56,7 +56,7 @@ MCOp(op) ==
   /\ DoOp(op)
   /\ last' = op /\ nOps' = nOps + 1 /\ nVal' = nVal + Count(op) /\ hist' = Append(hist, op)
   /\ pts' = IF GenMode THEN pts \cup RangeOf(PointsOf(fs, mem, op)) ELSE pts
-  /\ UNCHANGED <<phase, pre, nPost>>
+  /\ UNCHANGED <<phase, pre, nPost, nRec>>
 
 MCCrash(op, p, n) ==
   /\ ~GenMode
@@ -65,33 +65,46 @@ MCCrash(op, p, n) ==
   /\ phase' = "down" /\ pre' = Snapshot(op, p)
   /\ last' = [a |-> "Crash", op |-> op, p |-> p, n |-> n]
   /\ nVal' = nVal + Count(op) /\ hist' = Append(hist, last')
-  /\ UNCHANGED <<nOps, nPost, pts>>
+  /\ UNCHANGED <<nOps, nPost, pts, nRec>>
 
 MCRecover ==
   /\ phase = "down"
   /\ DoRecover
   /\ phase' = "post" /\ last' = [a |-> "Recover"] /\ hist' = Append(hist, last')
-  /\ UNCHANGED <<pre, nOps, nPost, nVal, pts>>
+  /\ UNCHANGED <<pre, nOps, nPost, nVal, pts, nRec>>
+
+\* the recovering process is killed too (at most MaxRecCrash times)
+MCRecoverCrash(p, n) ==
+  /\ phase = "down" /\ nRec < MaxRecCrash
+  /\ DoRecoverCrash(p, n)
+  /\ nRec' = nRec + 1
+  /\ last' = [a |-> "RecoverCrash", p |-> p, n |-> n] /\ hist' = Append(hist, last')
+  /\ UNCHANGED <<phase, pre, nOps, nPost, nVal, pts>>
+
+RecSites == IF mem.up THEN {} ELSE
+            LET ps == RecoverPointsOf(fs) IN
+            {[p |-> ps[i], n |-> Cardinality({j \in 1..i : ps[j] = ps[i]})] : i \in 1..Len(ps)}
 
 MCPost(op) ==
   /\ phase = "post" /\ nPost < MaxPost
   /\ DoOp(op)
   /\ last' = op /\ nPost' = nPost + 1 /\ nVal' = nVal + Count(op) /\ hist' = Append(hist, op)
   /\ pre' = [NoPre EXCEPT !.p = pre.p]
-  /\ UNCHANGED <<phase, nOps, pts>>
+  /\ UNCHANGED <<phase, nOps, pts, nRec>>
 
 \* workload generation (GenMode): no crash, the follow-up operations are drawn
 \* after the workload; the harness then enumerates every crash point itself
 MCSwitch ==
   /\ GenMode /\ phase = "pre" /\ nOps >= 1
   /\ phase' = "post" /\ last' = [a |-> "Switch"] /\ hist' = Append(hist, last')
-  /\ UNCHANGED <<vars, pre, nOps, nPost, nVal, pts>>
+  /\ UNCHANGED <<vars, pre, nOps, nPost, nVal, pts, nRec>>
 
 MCNext ==
   \/ MCSwitch
   \/ \E op \in Ops : MCOp(op)
   \/ \E op \in Ops : \E c \in Sites(op) : c.n <= MaxHit /\ MCCrash(op, c.p, c.n)
   \/ MCRecover
+  \/ \E c \in RecSites : MCRecoverCrash(c.p, c.n)
   \/ \E op \in Ops : MCPost(op)
 
 MCSpec == MCInit /\ [][MCNext]_mcvars
@@ -105,6 +118,7 @@ StateOK1(f, m) == StateOK(ScanOf(f, m), NewestOf(m), RdOf(f, m), m.ep)
 StepOK ==
   LET a == last' IN
   CASE a.a = "Crash" -> TRUE
+    [] a.a = "RecoverCrash" -> TRUE
     [] a.a = "Switch" -> TRUE
     [] a.a = "Recover" ->
          pre.p \in Taints \/
@@ -136,7 +150,7 @@ MemMatchesFiles ==
               LET k == Key(mem.segs[i].base, "") IN
               Has(fs.lf, k) /\ Has(fs.xf, k) /\ mem.segs[i] = SegOf(mem.segs[i].base, fs.xf[k])
 
-MCView == <<cfg, fs, mem, phase, pre, nOps, nPost, nVal>>
+MCView == <<cfg, fs, mem, phase, pre, nOps, nPost, nVal, nRec>>
 GenView == <<cfg, hist>>
 HistJson == ToJson(hist)
 =============================================================================
